@@ -32,7 +32,10 @@ typedef struct {
 			   a port open; judged by the rank of the documented
 			   linear system (cs_terms_rank16) */
     int vec;		/* the value parameters of the universe are tabulated
-			   (frequency-dependent vector parameters) */
+			   (frequency-dependent vector parameters); 2: tables
+			   of 17 points that no low-order rational function
+			   fits, three calibration frequencies between table
+			   points (every solve walks each table again) */
     int kit;		/* two-port universe of a measured kit: three scalar
 			   reflects per port given as 1x1, a through, and an
 			   isolation standard (match on both ports, explicit
@@ -86,6 +89,8 @@ static const shape_t shapes_quick[] = {
     { VNACAL_T8, 2, 2, 0, 0, 0, 0, 1 },   { VNACAL_UE10, 2, 2, 0, 0, 0, 0, 1 },
     { VNACAL_E12, 2, 2, 0, 0, 0, 0, 1 },  { VNACAL_T16, 2, 2, 0, 0, 0, 0, 1 },
     { VNACAL_U8, 1, 1, 0, 0, 0, 0, 1 },
+    { VNACAL_T8, 2, 2, 0, 0, 0, 0, 2 },   { VNACAL_E12, 2, 2, 0, 0, 0, 0, 2 },
+    { VNACAL_UE10, 1, 1, 0, 0, 0, 0, 2 }, { VNACAL_U16, 1, 1, 0, 0, 0, 0, 2 },
 };
 #define NSHAPE_QUICK ((int)(sizeof(shapes_quick) / sizeof(shapes_quick[0])))
 static const shape_t shapes_more[] = {
@@ -144,7 +149,8 @@ static int universe0(cs_scenario *sc, const shape_t *sh, int tier)
     static const cs_c through_v[4] = { 0, 1, 1, 0 };
 
     memset(sc, 0, sizeof(*sc));
-    cs_make_vna(&sc->vna, sh->type, sh->rows, sh->cols, 1, 2);
+    cs_make_vna(&sc->vna, sh->type, sh->rows, sh->cols, sh->vec == 2 ? 3 : 1,
+	    2);
     memset(&p, 0, sizeof(p));
     p.kind = CSP_PREDEF; p.handle = -1;
     p.predef = VNACAL_MATCH; sc->param[PM] = p;
@@ -322,7 +328,8 @@ static int universe(cs_scenario *sc, const shape_t *sh, int tier)
 	    pp->kind = CSP_VECTOR;
 	    pp->c1 = 0.15 * pp->c0 * (0.6 + 0.8 * I);
 	    pp->c2 = 0.1;
-	    pp->npts = 5;
+	    pp->npts = sh->vec == 2 ? 17 : 5;
+	    pp->warp = sh->vec == 2 ? 0.25 : 0.0;
 	    pp->lo = 0.9;
 	    pp->hi = 1.1;
 	}
@@ -457,7 +464,8 @@ static double dut_error(vnacal_t *vcp, vnacal_new_t *vnp, const char *name,
     for (int k = 0; k < 2; ++k) {
 	cs_c Sd[CS_MAXF][CS_MAXP * CS_MAXP];
 	int arc;
-	cs_dut(&sc->vna, k, 0, Sd[0]);
+	for (int f = 0; f < sc->vna.nf; ++f)
+	    cs_dut(&sc->vna, k, f, Sd[f]);
 	double e = cs_apply_error(vcp, ci, sc, Sd, &arc);
 	++r->transitions;
 	if (arc != 0)
@@ -539,7 +547,7 @@ static void run(int tier, long idx, vf_result *r)
 	vf_fail(r, "make-param", "parameter creation failed");
 	goto out;
     }
-    vnp = vnacal_new_alloc(vcp, sh->type, sh->rows, sh->cols, 1);
+    vnp = vnacal_new_alloc(vcp, sh->type, sh->rows, sh->cols, uni.vna.nf);
     if (vnp == NULL || vnacal_new_set_frequency_vector(vnp, uni.vna.f) != 0) {
 	vf_fail(r, "alloc", "vnacal_new_alloc/set_frequency_vector failed");
 	goto out;
